@@ -751,10 +751,14 @@ class Saver:
 
                 for chunk in chunks:
                     new_f = self.save(chunk=chunk, chunk_i=chunk_i, executor=executor)
-                    pending = [f for f in pending if not f.done()]
+                    pending = self._still_pending(pending)
                     if new_f is not None:
                         pending += [new_f]
                     chunk_i += 1
+
+            for f in pending:
+                # A chunk that failed to save (on a pool worker) must not be reported as saved
+                f.result(timeout=self.timeout)
 
         except strax.MailboxKilled:
             # Write exception (with close), but exit gracefully.
@@ -772,6 +776,14 @@ class Saver:
         finally:
             if not self.closed:
                 self.close(wait_for=pending)
+
+    @staticmethod
+    def _still_pending(pending):
+        """Drop completed futures from pending, raising the exception of any that failed."""
+        for f in pending:
+            if f.done():
+                f.result()
+        return [f for f in pending if not f.done()]
 
     def save(self, chunk: strax.Chunk, chunk_i: int, executor=None):
         """Save a chunk, returning future to wait on or None."""
